@@ -108,6 +108,13 @@ CHECKS = {
                      "families) in 2 (8) configurations: every plan atom is active or unified with an active atom of the same predicate with "
                      "equal arguments, active goals have their rule's flaws in the plan, causal support is acyclic.",
                 note="Recursion depth <= 4, at most 2 facts and 2 top-level goals."),
+    "C17": dict(engine="progrun", category="exploration", design_ref="DESIGN.md §4 C17",
+                technique="bounded exhaustive enumeration of class hierarchies x instance sets x declared variables x constraints, solved by the real solver; domains read right after read() and choices after solve()",
+                text="Six hierarchy shapes with every bounded instance-count vector and a variable of every type (instances before/after the "
+                     "declaration), pairs of variables with (dis)equalities, numeric and object-typed fields set in four ways and constrained "
+                     "through field access, enum unions: declared domains must be exactly the existing instances of the type and subtypes, "
+                     "solutions must pick one value per variable that satisfies every constraint, fields must hold what was written.",
+                note="At most 5 instances; enum values are compared by count and identity (strings are not exposed by name in the JSON)."),
 }
 
 PENDING_REASON = "check not built yet in this round (planned, see DESIGN.md §4); not claimed until its quick and thorough tiers have run to completion on the unchanged tree"
@@ -164,7 +171,7 @@ ENGINES = [
      "kind_free_text": "exhaustive root-level construction histories on sat_core, truth-table oracle"},
     {"name": "relmc", "path": "harness/relmc.cpp", "serves_properties": ["C11", "C12"],
      "kind_free_text": "exhaustive relation-request enumeration judged on a model grid with pinned variables (real lra/idl/rdl theories)"},
-    {"name": "progrun", "path": "harness/progrun.cpp + lib/riddle.py + lib/fam_*.py", "serves_properties": ["C01", "C02", "C03", "C04", "C05", "C06", "C16"],
+    {"name": "progrun", "path": "harness/progrun.cpp + lib/riddle.py + lib/fam_*.py", "serves_properties": ["C01", "C02", "C03", "C04", "C05", "C06", "C16", "C17"],
      "kind_free_text": "program-level exhaustive enumeration: Python generators with exact reference semantics, real solver run per program in forked children, validators on the official JSON solution"},
     {"name": "lexmc", "path": "harness/lexmc.cpp", "serves_properties": ["C16", "C18"],
      "kind_free_text": "exhaustive text enumeration through the RIDDLE lexer/parser (reference lexer, AST capture via virtual factories, crash/hang isolation)"},
